@@ -33,6 +33,8 @@ def _item(draw, idn):
         it["c"] = draw(st.sampled_from(VC))
     if draw(st.integers(0, 2)) == 0:
         it["d"] = draw(st.sampled_from(VA))
+    it["items"] = draw(st.sampled_from([0, 1, 3]))       # a key named like a dict method, and one with a dot: plain keys
+    it["a.b"] = draw(st.sampled_from([0, 1]))
     if draw(st.integers(0, 3)) == 0:
         # same keys, another insertion order (plans keep the order: replays do not sort keys)
         it = {k: it[k] for k in draw(st.permutations(list(it)))}
@@ -67,8 +69,8 @@ def _op(draw, counter):
     if name in ("filter", "filter_out"):
         op["pred"] = draw(_pred())
     elif name in ("filter_kv", "filter_out_kv"):
-        ks = draw(st.sampled_from([["a"], ["b"], ["a", "b"], ["b", "a"]]))
-        op["pairs"] = [[k, draw(st.sampled_from(VA if k == "a" else VB))] for k in ks]
+        ks = draw(st.sampled_from([["a"], ["b"], ["a", "b"], ["b", "a"], ["items"], ["a.b"], ["items", "a"]]))
+        op["pairs"] = [[k, draw(st.sampled_from({"a": VA, "b": VB}.get(k, [0, 1, 3])))] for k in ks]
     elif name == "sort":
         ks = draw(st.sampled_from([["a"], ["b"], ["a", "b"], ["b", "a"], ["_id"]]))
         op["keys"] = [[k, draw(st.sampled_from([1, -1]))] for k in ks]
